@@ -197,6 +197,7 @@ type cand struct {
 	def    bool   // from a definition line
 	line   string // the line that holds it
 	ls     int    // offset of that line in the document
+	ln     int    // its number
 	open   bool   // an unescaped `[` outside code spans is open before the `](` on that line
 	anchor int    // where the `]` of the `](` (of the `]:`) is, in the document
 	lb     int    // where that `[` is, in the document (the start of the line's label for a definition)
@@ -210,7 +211,8 @@ type cand struct {
 type docInfo struct {
 	doc     string
 	cands   []cand
-	skipped []bool // per byte: the HTML state machine below is inside HTML there
+	skipped []bool   // per byte: the state machine below does not read Markdown there (HTML, code block)
+	kinds   []string // per line: fence, indented, def, inline
 }
 
 var infoMemo = map[string]*docInfo{}
@@ -258,15 +260,24 @@ func analyse(doc string) *docInfo {
 		infoMemo = map[string]*docInfo{}
 	}
 	infoMemo[doc] = in
-	if len(doc) > 400 || parsed(doc) == nil {
+	if len(doc) > 2000 || parsed(doc) == nil {
 		return in
 	}
-	in.skipped = htmlSkipped(doc)
+	in.skipped, in.kinds = scanModel(doc)
 	ls := 0
-	for _, line := range strings.Split(doc, "\n") {
+	for ln, line := range strings.Split(doc, "\n") {
 		add := func(sp span, raw string, def bool, lb, anchor int) *cand {
-			c := cand{span: span{ls + sp.s, ls + sp.e}, raw: raw, def: def, line: line, ls: ls, open: lb >= 0, lb: ls + lb, anchor: ls + anchor}
-			c.nested = c.open && strings.Contains(doc[c.lb:c.anchor], "](")
+			c := cand{span: span{ls + sp.s, ls + sp.e}, raw: raw, def: def, line: line, ls: ls, ln: ln, open: lb >= 0, lb: ls + lb, anchor: ls + anchor}
+			if c.open {
+				// a `](` since the open bracket that reads as the end of a link
+				for q := lb + 1; q+1 < anchor; q++ {
+					if line[q] == ']' && line[q+1] == '(' {
+						if _, _, ok := anchorDest(line, q); ok || strings.HasPrefix(line[q:], "]()") {
+							c.nested = true
+						}
+					}
+				}
+			}
 			c.alone = isDestSpan(line, sp.s, sp.e)
 			c.at = locate(doc, c.s, c.e)
 			c.whole = c.at.role == "destination"
@@ -308,26 +319,19 @@ func analyse(doc string) *docInfo {
 }
 
 var reDefStart = regexp.MustCompile(`^ {0,3}\[`)
-var reFenceLine = regexp.MustCompile("(?m)^ {0,3}(```|~~~)")
 
-// plain: a candidate that a reader of single lines with the HTML state below reaches as the
-// destination of a link of its own: a bracket is open for it, no `](` since that bracket, not
-// inside HTML, the line not indented as code and no fence open before it
+// plain: a candidate that a reader of single lines with the state machine below reaches as
+// the destination of a link (or definition) of its own: its line is read as a definition (for a
+// definition) or as inline text, a bracket is open for it, no `](` since that bracket, and
+// nothing from that bracket on is skipped as HTML
 func (in *docInfo) plain(c cand) bool {
-	if !c.open || c.nested || in.anySkipped(c.lb, c.e) || reFenceLine.MatchString(in.doc[:c.ls]) {
+	if c.ln >= len(in.kinds) || !c.open || c.nested || in.anySkipped(c.lb, c.e) {
 		return false
 	}
-	w := 0
-	for _, ch := range c.line {
-		if ch == ' ' {
-			w++
-		} else if ch == '\t' {
-			w += 4 - w%4
-		} else {
-			break
-		}
+	if c.def {
+		return in.kinds[c.ln] == "def"
 	}
-	return w < 4
+	return in.kinds[c.ln] == "inline"
 }
 
 // openBracket: the position of the innermost `[` still open at the end of prefix for a reader
@@ -444,7 +448,61 @@ func looseTag(line string, pos int) (name string, end int, closing, selfClosing,
 	return name, i + 1, closing, selfClosing, true
 }
 
-// htmlSkipped: the bytes a scanner with the HTML state described in the findings (a stack of
+func indentWidth(line string) int {
+	w := 0
+	for _, ch := range line {
+		if ch == ' ' {
+			w++
+		} else if ch == '\t' {
+			w += 4 - w%4
+		} else {
+			break
+		}
+	}
+	return w
+}
+
+func fenceRun(line string) (byte, int, string) {
+	t := strings.TrimLeft(line, " \t")
+	if t == "" || t[0] != '`' && t[0] != '~' {
+		return 0, 0, ""
+	}
+	n := 0
+	for n < len(t) && t[n] == t[0] {
+		n++
+	}
+	return t[0], n, t[n:]
+}
+
+// defLine: a reference definition for a reader of single lines: what goldmark takes for one
+// when the line stands alone, or the same with a parenthesised title that holds a `(`
+func defLine(line string) bool {
+	if !reDefStart.MatchString(line) {
+		return false
+	}
+	if reParenTitleDef.MatchString(line) {
+		return true
+	}
+	v := parsed(line)
+	if v == nil || len(v.refs) == 0 {
+		return false
+	}
+	texts := 0
+	gast.Walk(v.doc, func(n gast.Node, entering bool) (gast.WalkStatus, error) {
+		if _, ok := n.(*gast.Text); ok && entering {
+			texts++
+		}
+		return gast.WalkContinue, nil
+	})
+	return texts == 0
+}
+
+// scanModel: the state of a scanner as the findings describe it, line by line. Outside HTML a
+// line that opens a fence (up to three columns of indentation, three or more backticks or
+// tildes, no backtick after backticks) starts a code block that ends at a line with a run at
+// least as long and nothing else; a line indented four columns or more is code; a line that
+// alone is a reference definition is read as one; every other line is inline text, in which
+// HTML is tracked: the bytes a scanner with the HTML state described in the findings (a stack of
 // complete open tags carried from line to line; comments, declarations, processing
 // instructions, CDATA up to their closer; raw text elements up to their closing tag) takes for
 // HTML. HTML is looked for only while no `[` is open (brackets are counted outside HTML and
@@ -453,16 +511,43 @@ func looseTag(line string, pos int) (name string, end int, closing, selfClosing,
 // of the line; code blocks are ignored here. This is a statement of the
 // CAUSE of several classes; whether it predicts the real code is measured by the precision
 // self-test, it is never taken on trust.
-func htmlSkipped(doc string) []bool {
+func scanModel(doc string) ([]bool, []string) {
 	sk := make([]bool, len(doc)+1)
+	var kinds []string
 	var stack []string
 	rawTag, rawCloser := "", ""
+	var fenceChar byte
+	fenceLen := 0
 	ls := 0
 	for _, line := range strings.Split(doc, "\n") {
 		mark := func(a, b int) {
 			for k := a; k < b && ls+k < len(sk); k++ {
 				sk[ls+k] = true
 			}
+		}
+		inHTML := len(stack) > 0 || rawTag != "" || rawCloser != ""
+		kind := "inline"
+		switch ch, n, rest := fenceRun(line); {
+		case fenceLen > 0:
+			kind = "fence"
+			if indentWidth(line) <= 3 && ch == fenceChar && n >= fenceLen && strings.TrimSpace(rest) == "" {
+				fenceLen = 0
+			}
+		case inHTML:
+		case indentWidth(line) <= 3 && n >= 3 && !(ch == '`' && strings.Contains(rest, "`")):
+			kind, fenceChar, fenceLen = "fence", ch, n
+		case indentWidth(line) >= 4 && strings.TrimSpace(line) != "":
+			kind = "indented"
+		case defLine(line):
+			kind = "def"
+		}
+		kinds = append(kinds, kind)
+		if kind != "inline" {
+			if kind != "def" {
+				mark(0, len(line)+1)
+			}
+			ls += len(line) + 1
+			continue
 		}
 		depth := 0
 		for i := 0; i < len(line); {
@@ -579,7 +664,7 @@ func htmlSkipped(doc string) []bool {
 		}
 		ls += len(line) + 1
 	}
-	return sk
+	return sk, kinds
 }
 
 func popTag(stack []string, name string) []string {
@@ -590,6 +675,9 @@ func popTag(stack []string, name string) []string {
 	}
 	return stack
 }
+
+// inlineLine: the state machine reads the candidate's line as inline text
+func (in *docInfo) inlineLine(c cand) bool { return c.ln < len(in.kinds) && in.kinds[c.ln] == "inline" }
 
 func (in *docInfo) skippedAt(i int) bool { return i < len(in.skipped) && in.skipped[i] }
 
@@ -826,7 +914,7 @@ func init() {
 			gen: func(r *proto.Rand) string {
 				var b strings.Builder
 				for i, n := 0, 1+r.Intn(5); i < n; i++ {
-					b.WriteString(pick(r, []string{"(", ")", "\\(", "\\)", "?", "#", "a", "a", "/", "(a)"}))
+					b.WriteString(pick(r, []string{"(", ")", "\\(", "\\)", "\\)", "?", "#", "?\\)", "#\\)", "?(", "a", "a", "/", "(a)", "(?)", "(#)"}))
 				}
 				d := b.String()
 				if r.Intn(8) == 0 {
@@ -838,13 +926,13 @@ func init() {
 			// cause: the span is a destination when its line stands alone and is not one in the
 			// document, where it is paragraph text, part of a code span or part of a link that
 			// runs over a line ending; the scanner carries only fence and HTML state from line to line
-			effects: []string{"rewrote:text", "rewrote:code-span", "rewrote:link-syntax"},
+			effects: []string{"rewrote:text", "rewrote:code-span", "rewrote:link-syntax", "rewrote:raw-html"},
 			predict: func(in *docInfo) []span {
 				if oneLine(in) {
 					return nil
 				}
 				return filterCands(in, func(c cand) bool {
-					return c.alone && !c.whole && !c.dup && (c.at.role == "text" || c.at.role == "code-span" || c.at.role == "link-syntax") &&
+					return c.alone && !c.whole && !c.dup && (c.at.role == "text" || c.at.role == "code-span" || c.at.role == "link-syntax" || c.at.role == "raw-html") &&
 						rewritable(c.raw) && in.plain(c)
 				})
 			},
@@ -865,11 +953,8 @@ func init() {
 			// HTML only while its bracket stack is empty; here a `[` is open before the `<`.
 			effects: []string{"rewrote:raw-html"},
 			predict: func(in *docInfo) []span {
-				if !oneLine(in) {
-					return nil
-				}
 				return filterCands(in, func(c cand) bool {
-					return c.at.role == "raw-html" && rewritable(c.raw) && c.open && !c.nested && c.lb < c.at.start && !in.anySkipped(c.lb, c.at.start)
+					return c.at.role == "raw-html" && in.inlineLine(c) && rewritable(c.raw) && c.open && !c.nested && c.ls <= c.at.start && c.lb < c.at.start && !in.anySkipped(c.lb, c.at.start)
 				})
 			},
 			gen: genBracketHTML},
@@ -889,13 +974,13 @@ func init() {
 			// and the other outside (CommonMark gives code spans precedence over HTML)
 			effects: []string{"rewrote:code-span", "rewrote:text", "rewrote:link-syntax"},
 			predict: func(in *docInfo) []span {
-				if !oneLine(in) || !codeSpanStraddlesHTML(in) {
-					return nil
-				}
 				return filterCands(in, func(c cand) bool {
+					if !in.inlineLine(c) || !codeSpanStraddlesHTML(in, c.ls, c.ls+len(c.line)) {
+						return false
+					}
 					// the scanner reads on after the HTML it skipped: the open bracket is looked for from there
 					q := c.anchor
-					for q > 0 && !in.skippedAt(q-1) {
+					for q > c.ls && !in.skippedAt(q-1) {
 						q--
 					}
 					return !c.def && !c.whole && openBracket(in.doc[q:c.anchor]) >= 0 && (c.at.role == "code-span" || c.at.role == "text" || c.at.role == "link-syntax") && rewritable(c.raw)
@@ -907,18 +992,22 @@ func init() {
 			// is text; parseTitle accepts it
 			effects: []string{"rewrote:text"},
 			predict: func(in *docInfo) []span {
-				if !oneLine(in) {
-					return nil
-				}
 				var out []span
-				for _, re := range []*regexp.Regexp{reParenTitleDef, reParenTitleInline} {
-					for _, m := range re.FindAllStringSubmatchIndex(in.doc, -1) {
-						sp := span{m[2], m[3]}
-						if pl := locate(in.doc, sp.s, sp.e); pl.role == "text" && rewritable(in.doc[sp.s:sp.e]) && !in.anySkipped(0, sp.e) &&
-							(re == reParenTitleDef || bracketDepth(in.doc[:m[0]]) > 0) && !strings.Contains(in.doc[:sp.s], "`") {
-							out = append(out, sp)
+				ls := 0
+				for ln, line := range strings.Split(in.doc, "\n") {
+					for _, re := range []*regexp.Regexp{reParenTitleDef, reParenTitleInline} {
+						if ln >= len(in.kinds) || in.kinds[ln] != map[bool]string{true: "def", false: "inline"}[re == reParenTitleDef] {
+							continue
+						}
+						for _, m := range re.FindAllStringSubmatchIndex(line, -1) {
+							sp := span{ls + m[2], ls + m[3]}
+							if pl := locate(in.doc, sp.s, sp.e); pl.role == "text" && rewritable(in.doc[sp.s:sp.e]) && !in.anySkipped(ls, sp.e) &&
+								(re == reParenTitleDef || bracketDepth(line[:m[0]]) > 0) && !strings.Contains(line[:m[2]], "`") {
+								out = append(out, sp)
+							}
 						}
 					}
+					ls += len(line) + 1
 				}
 				return out
 			},
@@ -929,22 +1018,22 @@ func init() {
 			// line, text or part of that link's title for goldmark, is rewritten
 			effects: []string{"rewrote:text", "rewrote:link-syntax"},
 			predict: func(in *docInfo) []span {
-				if !oneLine(in) {
-					return nil
-				}
-				at := emptyAngleLink(in.doc)
-				if at < 0 {
-					return nil
-				}
-				for _, c := range in.cands {
-					if c.s > at && !c.def {
-						if !c.whole && c.open && (c.lb < at && onlyEmptyAngle(in.doc[c.lb:c.anchor]) || c.lb > at && !c.nested && c.at.role == "link-syntax") && (c.at.role == "text" || c.at.role == "link-syntax") && rewritable(c.raw) && !in.anySkipped(0, c.e) && !strings.Contains(in.doc[:c.s], "`") {
-							return []span{c.span}
+				var out []span
+				ls := 0
+				for ln, line := range strings.Split(in.doc, "\n") {
+					if at := emptyAngleLink(in.doc, ls, ls+len(line)); at >= 0 && ln < len(in.kinds) && in.kinds[ln] == "inline" {
+						for _, c := range in.cands {
+							if c.ln == ln && c.s > at && !c.def {
+								if !c.whole && c.open && (c.lb < at && onlyEmptyAngle(in.doc[c.lb:c.anchor]) || c.lb > at && !c.nested && c.at.role == "link-syntax") && (c.at.role == "text" || c.at.role == "link-syntax") && rewritable(c.raw) && !in.anySkipped(ls, c.e) {
+									out = append(out, c.span)
+								}
+								break
+							}
 						}
-						return nil
 					}
+					ls += len(line) + 1
 				}
-				return nil
+				return out
 			},
 			gen: genEmptyAngle},
 		{id: "ld-image-in-link", minimal: "[![]()](a \"[](\")", clause: "only-destinations-change",
@@ -953,22 +1042,22 @@ func init() {
 			// destination and title as text and rewrites a `](dest)` inside them
 			effects: []string{"rewrote:link-syntax"},
 			predict: func(in *docInfo) []span {
-				if !oneLine(in) {
-					return nil
-				}
-				end := imageInLinkEnd(in.doc)
-				if end < 0 {
-					return nil
-				}
-				for _, c := range in.cands {
-					if c.s > end && !c.def && !c.whole {
-						if c.open && c.lb > end && !c.nested && c.at.role == "link-syntax" && rewritable(c.raw) && !in.anySkipped(0, c.e) && !strings.Contains(in.doc[:c.s], "`") && !strings.Contains(in.doc[:c.s], "<>") {
-							return []span{c.span}
+				var out []span
+				ls := 0
+				for ln, line := range strings.Split(in.doc, "\n") {
+					if end := imageInLinkEnd(in.doc, ls, ls+len(line)); end >= 0 && ln < len(in.kinds) && in.kinds[ln] == "inline" {
+						for _, c := range in.cands {
+							if c.ln == ln && c.s > end && !c.def && !c.whole {
+								if c.open && c.lb > end && !c.nested && c.at.role == "link-syntax" && rewritable(c.raw) && !in.anySkipped(ls, c.e) && !strings.Contains(in.doc[ls:c.s], "`") && !strings.Contains(in.doc[ls:c.s], "<>") {
+									out = append(out, c.span)
+								}
+								break
+							}
 						}
-						return nil
 					}
+					ls += len(line) + 1
 				}
-				return nil
+				return out
 			},
 			gen: genImageInLink},
 		{id: "ld-closing-tag-inside-link-title", minimal: "<span>[](a \"</span>[](\")", clause: "only-destinations-change",
@@ -977,34 +1066,31 @@ func init() {
 			// Markdown inside the title
 			effects: []string{"rewrote:link-syntax"},
 			predict: func(in *docInfo) []span {
-				if !oneLine(in) {
-					return nil
-				}
+				var out []span
 				for _, c := range in.cands {
-					if c.def || c.whole || in.anySkipped(c.s, c.e) {
+					if c.def || c.whole || !in.inlineLine(c) || in.anySkipped(c.s, c.e) {
 						continue
 					}
 					// the last byte the HTML state machine skips before the candidate ends a closing tag …
 					q := c.s
-					for q > 0 && !in.skippedAt(q-1) {
+					for q > c.ls && !in.skippedAt(q-1) {
 						q--
 					}
-					if q == 0 || in.doc[q-1] != '>' {
+					if q == c.ls || in.doc[q-1] != '>' {
 						continue
 					}
-					t := strings.LastIndex(in.doc[:q], "</")
-					if t < 1 || !in.skippedAt(t-1) {
+					t := c.ls + strings.LastIndex(in.doc[c.ls:q], "</")
+					if t < c.ls+1 || !in.skippedAt(t-1) {
 						continue
 					}
 					// … that goldmark holds in no positioned node (it is inside a title) and the brackets
 					// since then are the candidate's own
 					if pl := locate(in.doc, t, q); pl.role == "link-syntax" && c.at.role == "link-syntax" && rewritable(c.raw) &&
-						bracketDepth(in.doc[q:c.s-2]) > 0 && !strings.Contains(in.doc[q:c.s], "`") {
-						return []span{c.span}
+						openBracket(in.doc[q:c.anchor]) >= 0 {
+						out = append(out, c.span)
 					}
-					return nil
 				}
-				return nil
+				return out
 			},
 			gen: genTagTitle},
 	}
@@ -1047,12 +1133,12 @@ func onlyEmptyAngle(s string) bool {
 
 // emptyAngleLink: the position of the `<` of the first `](<>` that is an empty destination
 // of a link for goldmark (-1: none)
-func emptyAngleLink(doc string) int {
+func emptyAngleLink(doc string, from, to int) int {
 	if strings.Contains(doc, marker) {
 		return -1
 	}
-	for from := 0; ; {
-		i := strings.Index(doc[from:], "<>")
+	for {
+		i := strings.Index(doc[from:to], "<>")
 		if i < 0 {
 			return -1
 		}
@@ -1065,6 +1151,7 @@ func emptyAngleLink(doc string) int {
 		if j < 2 || doc[j-2:j] != "](" {
 			continue
 		}
+		_ = to
 		a, b := parsed(doc), parsed(doc[:i+1]+marker+doc[i+1:])
 		if a == nil || b == nil {
 			continue
@@ -1077,7 +1164,7 @@ func emptyAngleLink(doc string) int {
 
 // imageInLinkEnd: the end of the description of the first image that goldmark sees inside a
 // link (-1: none)
-func imageInLinkEnd(doc string) int {
+func imageInLinkEnd(doc string, from, to int) int {
 	v := parsed(doc)
 	if v == nil {
 		return -1
@@ -1102,11 +1189,13 @@ func imageInLinkEnd(doc string) int {
 					return gast.WalkContinue, nil
 				})
 				if e < 0 {
-					if i := strings.Index(doc, "!["); i >= 0 {
-						e = i + 2
+					if i := strings.Index(doc[from:to], "!["); i >= 0 {
+						e = from + i + 2
 					}
 				}
-				end = e
+				if e >= from && e <= to {
+					end = e
+				}
 			}
 		}
 		return gast.WalkContinue, nil
@@ -1116,7 +1205,7 @@ func imageInLinkEnd(doc string) int {
 
 // codeSpanStraddlesHTML: goldmark sees a code span of which exactly one delimiter lies inside
 // what the HTML state machine skips
-func codeSpanStraddlesHTML(in *docInfo) bool {
+func codeSpanStraddlesHTML(in *docInfo, from, to int) bool {
 	v := parsed(in.doc)
 	if v == nil {
 		return false
@@ -1142,7 +1231,7 @@ func codeSpanStraddlesHTML(in *docInfo) bool {
 				for b < len(in.doc)-1 && in.doc[b] != '`' {
 					b++
 				}
-				if in.skippedAt(a) != in.skippedAt(b) {
+				if a >= from && b < to && in.skippedAt(a) != in.skippedAt(b) {
 					found = true
 				}
 			}
@@ -1208,6 +1297,50 @@ func classify(c *hx.Ctx, doc, clause, detail string, r tresult) string {
 	return ""
 }
 
+// predictionCameTrue: on a document that fails, did the real code do to a predicted span what
+// the class says? For a class of wrongly rewritten spans: a predicted span was rewritten, it is
+// not a destination for goldmark (and not inert), and it lies where the class says. For a class
+// of wrong values: a predicted destination was rewritten to a text that goldmark does not read
+// as the URL the documented rule gives. For the class of broken structure: the document's
+// effect as a whole (effectOf).
+func predictionCameTrue(f *findingDef, doc string, pred []span, clause, detail string, r tresult) bool {
+	has := func(e string) bool {
+		for _, x := range f.effects {
+			if x == e {
+				return true
+			}
+		}
+		return false
+	}
+	texts := map[span]string{}
+	for _, rp := range r.Repls {
+		a, _ := strconv.Atoi(rp[0])
+		b, _ := strconv.Atoi(rp[1])
+		texts[span{a, b}] = unhex(rp[2])
+	}
+	for _, sp := range appliedSpans(r) {
+		if !intersects([]span{sp}, pred) || sp.e > len(doc) {
+			continue
+		}
+		pl := locate(doc, sp.s, sp.e)
+		switch {
+		case pl.role != "destination":
+			if has("rewrote:"+pl.role) && !isInertSpan(doc, sp.s, sp.e) {
+				return true
+			}
+		case has("value:resolves-against-base"):
+			if want, ok := resolved(meaning(doc[sp.s:sp.e])); ok && !sameURL(want, meaning(texts[sp])) {
+				return true
+			}
+		case has("structure-after-rewrite"):
+			if eff, culprit := effectOf(doc, clause, detail, r); eff == "structure-after-rewrite" && intersects(culprit, pred) {
+				return true
+			}
+		}
+	}
+	return false
+}
+
 // ---------------------------------------------------------------- precision self-test
 
 const precisionWanted = 950 // per mille
@@ -1232,7 +1365,15 @@ func precisionSelfTest(c *hx.Ctx, report func(kind, name, caseLine, human, impl,
 		// every class), but at least a few hundred draws so that each generator feeds the others
 		for try := 0; try < 20*precisionDocs && (len(samples[g]) < precisionDocs || try < precisionDocs); try++ {
 			d := findingDefs[g].gen(c.R)
-			if seen[d] || len(d) > 200 {
+			// one time in three inside a document of the main stream: what a class predicts must
+			// not depend on the document being small
+			switch c.R.Intn(6) {
+			case 0:
+				d = genBlock(c.R) + pick(c.R, []string{"\n\n", "\n\n", "\n"}) + d
+			case 1:
+				d = genBlock(c.R) + "\n\n" + d + "\n\n" + genBlock(c.R)
+			}
+			if seen[d] || len(d) > 400 {
 				continue
 			}
 			seen[d] = true
@@ -1264,14 +1405,7 @@ func precisionSelfTest(c *hx.Ctx, report func(kind, name, caseLine, human, impl,
 		}
 		hits, firstMiss := 0, ""
 		for j, d := range docs {
-			ok := false
-			if cls[j] != "" {
-				eff, culprit := effectOf(d, cls[j], dets[j], rs[j])
-				for _, e := range f.effects {
-					ok = ok || e == eff
-				}
-				ok = ok && intersects(culprit, samples[i][j].pred)
-			}
+			ok := cls[j] != "" && predictionCameTrue(f, d, samples[i][j].pred, cls[j], dets[j], rs[j])
 			if ok {
 				hits++
 			} else if firstMiss == "" {
